@@ -323,7 +323,11 @@ class _ReadSourceGenerator:
                 if issubclass(read_type, Int):
                     # Also for enums and flags on top of an Int type: the elements are slices of the buffer
                     reads.append(f"_b = {getter}")
-                    item_parser = parser_template.format(type="_et", getter=f"_b[i:i + {field_type.type.size}]")
+                    if issubclass(field_type.type, Pointer):
+                        # The address is parsed by the pointer's integer type, the pointer keeps this stream
+                        item_parser = f"_et.__new__(_et, cls.cs.pointer(_b[i:i + {field_type.type.size}]), stream, r)"
+                    else:
+                        item_parser = parser_template.format(type="_et", getter=f"_b[i:i + {field_type.type.size}]")
                     list_comp = f"[{item_parser} for i in range(0, {count}, {field_type.type.size})]"
                 elif issubclass(field_type.type, Pointer):
                     item_parser = "_et.__new__(_et, e, stream, r)"
@@ -337,6 +341,9 @@ class _ReadSourceGenerator:
                 parser = f"type.__call__({self._map_field(field)}, {getter})"
             elif issubclass(field_type, Pointer):
                 reads.append(f"_pt = {self._map_field(field)}")
+                if issubclass(read_type, Int):
+                    # A pointer type that is not struct-packed (e.g. uint24) parses its own slice of the buffer
+                    getter = f"cls.cs.pointer({getter})"
                 parser = f"_pt.__new__(_pt, {getter}, stream, r)"
             else:
                 parser = parser_template.format(type=self._map_field(field), getter=getter)
